@@ -55,7 +55,7 @@ func init() {
 
 var Ops = []string{
 	"APPEND", "COPY", "MOVE", "EXPUNGE", "CREATE", "DELETE", "RENAME", "RENAME-INBOX", "SUBSCRIBE", "UNSUBSCRIBE",
-	"CONN-CREATE2", "CONN-CREATE-KNOWN", "CONN-UPDATE", "CONN-DELETE", "CONN-MOVE", "LOGOUT-PURGE", "STORE",
+	"CONN-CREATE2", "CONN-CREATE-KNOWN", "CONN-UPDATE", "CONN-DELETE", "CONN-MOVE", "LOGOUT-PURGE", "STORE", "FETCH-REDOWNLOAD",
 }
 
 func bigLiteral(key string) string {
@@ -157,7 +157,9 @@ func runCall(raw json.RawMessage) (any, error) {
 	}
 	// From here on the remote side does not offer message literals any more: a cache file that goes missing must
 	// show up as a message that can not be fetched, not be healed silently by a re-download.
-	w.Users[0].Conn.ForgetLiterals()
+	if p.Op != "FETCH-REDOWNLOAD" {
+		w.Users[0].Conn.ForgetLiterals()
+	}
 	h.Arm(p.Mode, p.At)
 	switch p.Op {
 	case "APPEND":
@@ -201,6 +203,11 @@ func runCall(raw json.RawMessage) (any, error) {
 	case "LOGOUT-PURGE":
 		r := w.Logout(o2)
 		res.Status = r.Status
+	case "FETCH-REDOWNLOAD":
+		// reading a message: a cache read that fails is healed by downloading the literal from the connector again and
+		// writing it back (this is the one operation during which the remote side still offers literals)
+		res.Status = o.C.Cmd("FETCH 1 (BODY.PEEK[])").Status
+		w.Users[0].Conn.ForgetLiterals()
 	default:
 		return nil, fmt.Errorf("unknown op %q", p.Op)
 	}
@@ -233,6 +240,7 @@ func ack(r vconn.InjectResult) string {
 }
 
 var keyRe = regexp.MustCompile(`(?m)^X-Verif-Key: (\S+)\r?$`)
+var sizeRe = regexp.MustCompile(`RFC822\.SIZE (\d+)`)
 var idRe = regexp.MustCompile(`(?m)^X-Pm-Gluon-Id: [^\r\n]*\r?\n`)
 
 // readState reads every mailbox through a new session (and checks message bytes).
@@ -265,7 +273,7 @@ func readState(w *world.World, problems *[]string) (State, error) {
 			continue
 		}
 		validity, _ := r.Code("UIDVALIDITY")
-		f := s.C.Cmd("UID FETCH 1:* (FLAGS BODY.PEEK[])")
+		f := s.C.Cmd("UID FETCH 1:* (FLAGS RFC822.SIZE BODY.PEEK[])")
 		if !f.OK() {
 			st.Problem = append(st.Problem, fmt.Sprintf("FETCH in %s: %s", mb.Name, f.Tagged.Text))
 			continue
@@ -289,8 +297,13 @@ func readState(w *world.World, problems *[]string) (State, error) {
 					key = string(m[1])
 				}
 			}
-			if !bytes.Equal(idRe.ReplaceAll(body, nil), literalOf(key)) {
-				st.Problem = append(st.Problem, fmt.Sprintf("message %s (UID %d in %s) does not have its exact bytes (%d bytes returned)", key, p.Row.UID, mb.Name, len(body)))
+			// the stored message is the literal with exactly one internal-id line in front of it
+			loc := idRe.FindIndex(body)
+			if loc == nil || loc[0] != 0 || !bytes.Equal(body[loc[1]:], literalOf(key)) {
+				st.Problem = append(st.Problem, fmt.Sprintf("message %s (UID %d in %s) does not have its exact bytes (%d bytes returned, id line at %v)", key, p.Row.UID, mb.Name, len(body), loc))
+			}
+			if m := sizeRe.FindStringSubmatch(u.Text); m == nil || m[1] != fmt.Sprint(len(body)) {
+				st.Problem = append(st.Problem, fmt.Sprintf("message %s (UID %d in %s): RFC822.SIZE %v but BODY[] has %d bytes", key, p.Row.UID, mb.Name, m, len(body)))
 			}
 			keys[key] = true
 			var fl []string
